@@ -5,6 +5,7 @@
 //!        driver info
 
 #![allow(dead_code, unused_parens)]
+mod heapwatch;
 mod lang;
 mod ops;
 mod rng;
@@ -59,6 +60,9 @@ fn parse_cases(text: &str) -> Result<Vec<Script>, String> {
     }
     Ok(out)
 }
+
+#[global_allocator]
+static GLOBAL: heapwatch::Watch = heapwatch::Watch;
 
 static TICKET: AtomicU64 = AtomicU64::new(0);
 
